@@ -10,45 +10,50 @@ def arr? (s : String) : Option (Array GInt) :=
 
 def strArr (a : Array GInt) : String := gintListStr a.toList
 
-/-- exact division in ℚ[i] (only the driver needs it: the Sylvester rule divides by `s_a + s_b`) -/
-instance : Div QI := ⟨fun a b =>
-  let d := QI.normSq b
-  ⟨(a.re * b.re + a.im * b.im) / d, (a.im * b.re - a.re * b.im) / d⟩⟩
+/-- one entry of a sweep program: index data + the `_setup` descriptor + (for constant gates) the array:
+`u:<t>:<name>:<objId>:<tr>:<ph>:<U or ->`, `c:<c>:<t>:<name>:<objId>:<tr>:<ph>:<U or ->` -/
+structure RawGate where
+  ctrl : Option (List Int)
+  tgt : List Int
+  desc : GateDesc
+  arr : Option (Array GInt)
 
-/-- one gate of a sweep program: `u:<t>:F:<U>`, `u:<t>:P:<slot>`, `c:<c>:<t>:F:<U>`, `c:<c>:<t>:P:<slot>` -/
-def parseGate (n : Nat) (s : String) : Option (PGate n GInt) :=
-  let mk (raw : RawOp GInt) (slot : Option Nat) : Option (PGate n GInt) :=
+def parseRawGate (s : String) : Option RawGate :=
+  let mk (c : Option (List Int)) (t nm oid tr ph u : String) : Option RawGate := do
+    let t ← parseIntList? t; let oid ← oid.toNat?
+    let a ← (if u = "-" then some none else (arr? u).map some)
+    pure ⟨c, t, ⟨nm, oid, tr == "1", ph == "1"⟩, a⟩
+  match s.splitOn ":" with
+  | ["u", t, nm, oid, tr, ph, u] => mk none t nm oid tr ph u
+  | ["c", c, t, nm, oid, tr, ph, u] => do let c ← parseIntList? c; mk (some c) t nm oid tr ph u
+  | _ => none
+
+/-- resolve the index data with the simulator's `RawOp.compile`; the matrix source is the model's slot (`repSlot`) if `_setup`
+gives the gate a row (`slotOf`), else the constant array -/
+def compileGate (n : Nat) (gs : List GateDesc) (i : Nat) (g : RawGate) : Option (PGate n GInt) :=
+  let dummy : Array GInt := Array.replicate (2 ^ g.tgt.length * 2 ^ g.tgt.length) 0
+  let src? : Option (Option Nat) := match repSlot gs i with
+    | some sl => some (some sl)
+    | none => if g.arr.isSome then some none else none
+  match src? with
+  | none => none
+  | some slot =>
+    let u := (g.arr.getD dummy)
+    let raw : RawOp GInt := match g.ctrl with
+      | none => .unitary u g.tgt
+      | some c => .control u c g.tgt
     match raw.compile n with
     | some (.unitary U t) => some (.unitary (match slot with | some sl => .param sl | none => .fixed U) t)
     | some (.control U c r tn) => some (.control (match slot with | some sl => .param sl | none => .fixed U) c r tn)
     | _ => none
-  match s.splitOn ":" with
-  | ["u", t, "F", u] => do
-      let t ← parseIntList? t; let u ← arr? u
-      mk (.unitary u t) none
-  | ["u", t, "P", sl] => do
-      let t ← parseIntList? t; let sl ← sl.toNat?
-      mk (.unitary (Array.replicate (2 ^ t.length * 2 ^ t.length) 0) t) (some sl)
-  | ["c", c, t, "F", u] => do
-      let c ← parseIntList? c; let t ← parseIntList? t; let u ← arr? u
-      mk (.control u c t) none
-  | ["c", c, t, "P", sl] => do
-      let c ← parseIntList? c; let t ← parseIntList? t; let sl ← sl.toNat?
-      mk (.control (Array.replicate (2 ^ t.length * 2 ^ t.length) 0) c t) (some sl)
-  | _ => none
 
-/-- parameter table entry `k:slot:<entries>` -/
-def parseParam (s : String) : Option (Nat × Nat × Array GInt) :=
+/-- stacked tensor of one name: `name:k:rows:<entries of all rows>` -/
+def parseTensor (s : String) : Option (String × Nat × Nat × Array GInt) :=
   match s.splitOn ":" with
-  | [k, sl, u] => do
-      let k ← k.toNat?; let sl ← sl.toNat?; let u ← arr? u
-      if u.size = 2 ^ k * 2 ^ k then pure (k, sl, u) else none
+  | [nm, k, rows, u] => do
+      let k ← k.toNat?; let rows ← rows.toNat?; let u ← arr? u
+      if u.size = rows * (2 ^ k * 2 ^ k) then pure (nm, k, rows, u) else none
   | _ => none
-
-def paramsOf (tab : List (Nat × Nat × Array GInt)) : Params GInt :=
-  fun k s => match tab.find? fun e => e.1 == k && e.2.1 == s with
-    | some e => lookupMat e.2.2
-    | none => fun _ _ => 0
 
 def parseOpSeq (m : Nat) (s : String) : Option (List (Op m GInt)) :=
   if s = "-" then some [] else
@@ -105,10 +110,12 @@ def handleExtra (args : List String) : Option String :=
       let ps : ParamList Int := (sh.zip ini).map fun p => (p.1.1, p.1.2.1, p.2.2)
       if (ps.zip sh).any (fun p => p.1.2.2.length ≠ p.2.2.2) then return "bad-op"
       if theta.length ≠ (getFlat ps).length then return "bad-op"
-      let after := afterSet ps theta
+      -- trainable parameters after the call = `setFlat` (sorted-name order); frozen ones pass through unchanged
+      let after := setFlat ps theta
+      let frozen := ps.filter fun p => !p.2.1
       let gps : ParamList Int := sh.map fun p => (p.1, p.2.1, ((gr.find? fun g => g.1 == p.1).map (·.2)).getD [])
-      let vals := "|".intercalate (after.map fun p => s!"{p.1}={intListStr p.2.2}")
-      return s!"{vals} {intListStr (getFlat gps)} {intListStr (getFlat after)}"
+      let vals := "|".intercalate ((after.map fun p => s!"{p.1}={intListStr p.2}") ++ (frozen.map fun p => s!"{p.1}={intListStr p.2.2}"))
+      return s!"{vals} {intListStr (getFlat gps)} {intListStr ((sortByName after).flatMap (·.2))}"
   | ["sylvf", m, r, s, v, g] => some <| Id.run do
       let some m := m.toNat? | return "bad-op"
       let some r := r.toNat? | return "bad-op"
@@ -116,16 +123,10 @@ def handleExtra (args : List String) : Option String :=
       let some v := parseQIBitsList? v | return "bad-op"
       let some g := parseQIBitsList? g | return "bad-op"
       if sA.size ≠ m || v.size ≠ m * m || g.size ≠ m * m then return "bad-op"
-      let z : QI := 0
-      if (List.range m).any (fun a => (List.range m).any fun b => a ≠ b && sA.getD a z == z && sA.getD b z == z) then
-        return "nan"
-      let V : Nat → Nat → QI := fun i j => v.getD (i * m + j) 0
-      let step (sG : (Nat → QI) × Array QI) : (Nat → QI) × Array QI :=
-        let Gf : Nat → Nat → QI := fun i j => sG.2.getD (i * m + j) 0
-        let X := sylvStep m V sG.1 Gf
-        (fun a => sG.1 a * sG.1 a, ((List.range m).flatMap fun i => (List.range m).map fun j => X i j).toArray)
-      let res := (List.range r).foldl (fun acc _ => step acc) ((fun a => sA.getD a 0), g)
-      return qiListStr res.2.toList
+      let sf : Nat → QI := fun a => sA.getD a 0
+      if !(sylvDividesAll m r sf) then return "nan"
+      let res := sylvBackwardA m (ofTab m v) r sf g
+      return qiListStr res.toList
   | _ => none
 
 def handle (args : List String) : String :=
@@ -158,24 +159,40 @@ def handle (args : List String) : String :=
         let res := applyControlledGrad U cc r tn (lookup qc) (lookup g)
         return s!"{strArr (tabulate res.1)}|{strArr (tabulate res.2.1)}|{strArr (tabulateMat res.2.2)}"
       | _ => return "error"
-  | ["sweep", n, prog, params, psi, gout] => Id.run do
+  | ["sweep", n, prog, tensors, psi, gout] => Id.run do
       let some n := n.toNat? | return "bad-op"
-      let some gates := (if prog = "-" then some [] else (prog.splitOn "|").mapM (parseGate n)) | return "error"
-      let some tab := (if params = "-" then some [] else (params.splitOn "|").mapM parseParam) | return "bad-op"
+      let some raws := (if prog = "-" then some [] else (prog.splitOn "|").mapM parseRawGate) | return "bad-op"
+      let some tens := (if tensors = "-" then some [] else (tensors.splitOn "|").mapM parseTensor) | return "bad-op"
       let some psi := arr? psi | return "bad-op"
       let some gout := arr? gout | return "bad-op"
       if psi.size ≠ 2 ^ n || gout.size ≠ 2 ^ n then return "bad-op"
-      let Θ := paramsOf tab
-      -- evaluate through flat arrays after every step (keeps the closures shallow)
-      let out : Array GInt := gates.foldl (fun a g => tabulate (n := n) (g.apply Θ (lookup a))) psi
-      let qc0 : Array GInt := out.map conj
-      let init : Array GInt × Array GInt × List (Nat × Nat × Array GInt) :=
-        (qc0, gout, tab.map fun e => (e.1, e.2.1, Array.replicate e.2.2.size 0))
-      let res := gates.foldr (fun gate acc =>
-        let G : Params GInt := paramsOf acc.2.2
-        let r := gate.back Θ (lookup (n := n) acc.1, lookup (n := n) acc.2.1, G)
-        (tabulate r.1, tabulate r.2.1, acc.2.2.map fun e => (e.1, e.2.1, tabulateMat (k := e.1) (r.2.2 e.1 e.2.1)))) init
-      let grads := "/".intercalate (res.2.2.map fun e => strArr e.2.2)
+      let gs := raws.map (·.desc)
+      -- the stacked tensors must be exactly the ones `_setup` creates: names in `nameList` order, `rowCount` rows each
+      if tens.map (·.1) ≠ nameList gs then return s!"names:{",".intercalate (nameList gs)}"
+      if tens.any (fun t => t.2.2.1 ≠ rowCount gs t.1) then return "rows-mismatch"
+      let some gates := (raws.zipIdx.mapM fun p => compileGate n gs p.2 p.1) | return "error"
+      -- table of the slots in use: key (k, repSlot), value = the row of the stacked tensor that `slotOf` names
+      let reps : List (Nat × String × Nat) := ((List.range gs.length).filterMap fun i =>
+        match repSlot gs i, slotOf gs i with
+        | some sl, some (nm, row) => if sl = i then some (i, nm, row) else none
+        | _, _ => none)
+      let some tab : Option (ParamTable GInt) := reps.mapM fun e => do
+        let t ← tens.find? fun t => t.1 == e.2.1
+        let sz := 2 ^ t.2.1 * 2 ^ t.2.1
+        pure (t.2.1, e.1, t.2.2.2.extract (e.2.2 * sz) ((e.2.2 + 1) * sz)) | return "bad-op"
+      let Θ : Params GInt := paramsOf tab
+      let zeroTab : ParamTable GInt := tab.map fun e => (e.1, e.2.1, Array.replicate e.2.2.size 0)
+      -- guard of `driver_backward_eq`
+      if !(gates.all fun g => g.coveredB zeroTab) then return "slot-not-covered"
+      let out : Array GInt := forwardA Θ gates psi
+      let res : StA GInt := backwardA (n := n) Θ gates (out.map conj, gout, zeroTab)
+      -- gradients in the layout of the stacked tensors: per name (nameList order), per row
+      let grads := "/".intercalate (tens.flatMap fun t => (List.range t.2.2.1).map fun row =>
+        match reps.find? fun e => e.2.1 == t.1 && e.2.2 == row with
+        | some e => (match res.2.2.find? fun g => g.1 == t.2.1 && g.2.1 == e.1 with
+            | some g => strArr g.2.2
+            | none => "missing")
+        | none => "unused-row")
       return s!"{strArr out}|{strArr res.2.1}|{grads}"
   | ["slots", descs] => Id.run do
       let some gs := (descs.splitOn "|").mapM parseDesc | return "bad-op"
@@ -207,19 +224,12 @@ def handle (args : List String) : String :=
       let some g := arr? g | return "bad-op"
       if s.length ≠ m || v.size ≠ m * m || g.size ≠ m * m then return "bad-op"
       let sA := s.toArray
-      if (List.range m).any (fun a => (List.range m).any fun b => a ≠ b && sA.getD a 0 == 0 && sA.getD b 0 == 0) then
-        return "nan"
       let sf : Nat → QI := fun a => ⟨(sA.getD a 0 : Int), 0⟩
+      -- division guard (all passes): a zero sum of two different roots is a division by zero in the code (inf/NaN)
+      if !(sylvDividesAll m r sf) then return "nan"
       let V : Nat → Nat → QI := fun i j => qiOfG (v.getD (i * m + j) 0)
-      let G : Nat → Nat → QI := fun i j => qiOfG (g.getD (i * m + j) 0)
-      -- tabulate after every pass
-      let step (sG : (Nat → QI) × Array QI) : (Nat → QI) × Array QI :=
-        let Gf : Nat → Nat → QI := fun i j => sG.2.getD (i * m + j) 0
-        let X := sylvStep m V sG.1 Gf
-        (fun a => sG.1 a * sG.1 a, ((List.range m).flatMap fun i => (List.range m).map fun j => X i j).toArray)
-      let init : (Nat → QI) × Array QI := (sf, ((List.range m).flatMap fun i => (List.range m).map fun j => G i j).toArray)
-      let res := (List.range r).foldl (fun acc _ => step acc) init
-      return qiListStr res.2.toList
+      let res := sylvBackwardA m V r sf (g.map qiOfG)
+      return qiListStr res.toList
   | ["flat", shapes, theta] => Id.run do
       -- shapes: `name:len|...` in registration order; theta: integers
       let some sh := (shapes.splitOn "|").mapM (fun s => match s.splitOn ":" with
